@@ -3,7 +3,7 @@ from fractions import Fraction as F
 
 from sim.chart import Cfg, swarm, gen_spec, tid
 from sim.engine import Result, Abandon, fp
-from sim.probes import ev
+from sim.probes import ev, SimClock, SkewClock
 from sim.semrun import Sim, standard_ops, replay_script, legal_or_abandon, event_uid
 from sim.checks import common
 from sim.checks.c09 import sig
@@ -115,15 +115,51 @@ def derive(r, T):
     return out
 
 
+def r_mark(sim, r):
+    return len(sim.P.log) - len(r.log)
+
+
+def positions(sp, r):
+    """number of probe-log entries of this step that precede each documented meta-event (same order as derive())"""
+    nguards = 0
+    for e in r.log:
+        if e[0] in ('guard', 'tguard'):
+            nguards += 1
+        else:
+            break
+    out = [0]                       # step started: before anything
+    n = nguards
+    if r.ms is not None:
+        if r.ms.event is not None:
+            out.append(n)           # event consumed: after selection, before any code
+        for m in r.ms.steps:
+            for sname in m.exited_states:
+                n += 1 + len(sp.states[sname].exit_sends)
+                out.append(n)
+            if m.transition is not None:
+                n += 1 + len(sp.trans[tid(m.transition)].sends)
+                out.append(n)
+            for sname in m.entered_states:
+                n += 1 + len(sp.states[sname].entry_sends)
+                out.append(n)
+            for e in m.sent_events:
+                out.append(n)       # sent events are raised once the micro step's code has run
+    if r.exc is None:
+        out.append(len(r.log))
+    return out
+
+
 def run(ch, tier):
     res = Result()
     cs = ch.s('cfg')
     cfg = swarm(cs, Cfg(sends=True, notify=True, delays=True), tier)
     trip_first = cs.flag(1, 2)
+    skew = cs.flag(1, 2)        # the monitored clock moves at every read: the property chart must still see the frozen step time
+    mkclock = (lambda: SkewClock()) if skew else (lambda: SimClock())
     sp = gen_spec(ch.s('chart'), cfg)
     cfp = fp(sp.fingerprint())
     # ---------------- run A
-    a = Sim(sp)
+    a = Sim(sp, clock=mkclock())
     plain = Plain(a)
     q = Q()
     a.it.attach(plain)
@@ -144,6 +180,14 @@ def run(ch, tier):
             i = next((i for i, (x, y) in enumerate(zip(got, want)) if x != y), min(len(got), len(want)))
             return res.fail('meta-event-stream', 'meta-event %d of the call: listener received %r, the returned step implies %r' % (
                 i, got[i] if i < len(got) else 'nothing', want[i] if i < len(want) else 'nothing'), **ctx)
+        # each meta-event is emitted where the thing happens: position inside the code the step executed
+        want_pos = positions(sp, r)
+        got_pos = [x[1] - r_mark(a, r) for x in got_all if x[0][0] != 'delayed event sent']
+        if got_pos != want_pos:
+            i = next((i for i, (x, y) in enumerate(zip(got_pos, want_pos)) if x != y), 0)
+            code = [e for e in r.log]
+            return res.fail('meta-event-timing', 'meta-event %d (%s) was emitted after %d pieces of monitored code of this step had run, it '
+                            'documents something that happened after %d: %r' % (i, got[i][0], got_pos[i], want_pos[i], code[:max(got_pos[i], want_pos[i]) + 1]), **ctx)
         qs = q.seen[pos:]
         if [x[0] for x in qs] != [x[0] for x in got_all]:
             return res.fail('property-chart-stream', 'the bound property statechart received %r, the attached listener %r' % (
@@ -158,7 +202,7 @@ def run(ch, tier):
     L = list(a.P.log)
     n = len(plain.seen)
     # ---------------- run C: no listener at all (non-intrusive)
-    c = Sim(sp)
+    c = Sim(sp, clock=mkclock())
     for i, r in enumerate(replay_script(c, script)):
         if (sig(r.ms), sorted(r.post), r.exc_name()) != sigs[i]:
             return res.fail('intrusive', 'step %d differs between a monitored and an unmonitored run: %r vs %r' % (
@@ -166,6 +210,7 @@ def run(ch, tier):
     if c.P.log != L:
         return res.fail('intrusive', 'executed code differs between a monitored and an unmonitored run', chart=sp.describe())
     res.stats['meta_events_in_fault_free_twin'] += n
+    res.stats['runs_with_skewing_clock' if skew else 'runs_with_still_clock'] += 1
     # ---------------- runs B_k
     fs = ch.s('faults')
     if tier == 'thorough' or n <= 10:
@@ -174,7 +219,7 @@ def run(ch, tier):
     else:
         ks = sorted(set(1 + fs.choice(n) for _ in range(10)))
     for k in ks:
-        b = Sim(sp)
+        b = Sim(sp, clock=mkclock())
         pb = Plain(b)
         ctxp = {'K': k}
         mk = lambda sc, clock: Interpreter(sc, clock=clock, initial_context=ctxp)   # noqa
